@@ -436,3 +436,98 @@ silent("c09-silent-flag-else-form", ["C09"], DE,
 silent("c09-silent-flop-reorder", ["C09"], FL,
        "return 1 + self.rec(expr.base) + self.rec(expr.exponent)",
        "return self.rec(expr.exponent) + 1 + self.rec(expr.base)")
+
+# ---------------------------------------------------------------------------
+# C20
+# ---------------------------------------------------------------------------
+STF = "pymbolic/imperative/statement.py"
+TRF = "pymbolic/imperative/transform.py"
+ANF = "pymbolic/imperative/analysis.py"
+
+fire("c20-revert-get-vars", ["C20"], STF,
+     "return frozenset(dep.name for dep in get_deps(expr))",
+     "return frozenset(dep.name for dep in get_deps(self.rhs))",
+     "S/Assignment")
+fire("c20-reads-forget-lhs", ["C20"], STF,
+     "result = get_vars(self.rhs) | get_vars(self.lhs)",
+     "result = get_vars(self.rhs)",
+     "get_read_variables/attrs")
+fire("c20-cond-reads-drop-super", ["C20"], STF,
+     "        return (\n                super().get_read_variables()\n                | frozenset(\n"
+     "                    dep.name for dep in dep_mapper(self.condition)))",
+     "        super().get_read_variables()\n        return (\n                frozenset(\n"
+     "                    dep.name for dep in dep_mapper(self.condition)))",
+     "super-dropped")
+fire("c20-map-expr-forgets-condition", ["C20"], STF,
+     "                .copy(condition=mapper(self.condition)))",
+     "                .copy())",
+     "ConditionalAssignment/map_expressions/attrs")
+fire("c20-map-expr-rhs-unmapped", ["C20"], STF,
+     "                    rhs=mapper(self.rhs)))",
+     "                    rhs=self.rhs))",
+     "map_expressions/attrs")
+fire("c20-written-subscript-index", ["C20"], STF,
+     "            return frozenset([self.lhs.aggregate.name])",
+     "            return frozenset([self.lhs.index.name])",
+     "P/Assignment.get_written_variables")
+fire("c20-written-no-raise", ["C20"], STF,
+     "            raise TypeError(\"unexpected type of LHS\")",
+     "            return frozenset()",
+     "P/Assignment.get_written_variables")
+fire("c20-depmapper-includes-subscripts", ["C20"], STF,
+     "            include_subscripts=False,\n            include_lookups=False,",
+     "            include_subscripts=True,\n            include_lookups=False,",
+     "T/Statement.get_dependency_mapper")
+fire("c20-fuse-seed-misses-first-stream", ["C20"], TRF,
+     "            {stmta.id for stmta in new_statements})",
+     "            {stmta.id for stmta in new_statements[1:]})",
+     "P/fuse/generator-seeded-with-first-stream")
+fire("c20-fuse-mapping-keyed-by-new", ["C20"], TRF,
+     "        old_b_id_to_new_b_id[old_id] = new_id",
+     "        old_b_id_to_new_b_id[new_id] = new_id",
+     "P/fuse/mapping-domain")
+fire("c20-fuse-deps-not-remapped", ["C20"], TRF,
+     "                    depends_on=frozenset(\n"
+     "                        old_b_id_to_new_b_id[dep_id]\n"
+     "                        for dep_id in stmtb.depends_on)))",
+     "                    depends_on=frozenset(\n"
+     "                        dep_id\n"
+     "                        for dep_id in stmtb.depends_on)))",
+     "P/fuse/depends-on-remapped")
+fire("c20-fuse-id-not-from-generator", ["C20"], TRF,
+     "        new_id = stmt_id_gen(old_id)",
+     "        new_id = old_id if old_id not in old_b_id_to_new_b_id else stmt_id_gen(old_id)",
+     "P/fuse")
+fire("c20-disamb-union-for-clash", ["C20"], TRF,
+     "    for clash in id_a & id_b:",
+     "    for clash in id_a | id_b:",
+     "P/disambiguate/clash-set")
+fire("c20-disamb-generator-seed-only-b", ["C20"], TRF,
+     "    vng = UniqueNameGenerator(id_a | id_b)",
+     "    vng = UniqueNameGenerator(id_b)",
+     "P/disambiguate/fresh-names")
+fire("c20-disamb-skip-lhs", ["C20"], TRF,
+     "            stmt.map_expressions(subst_map) for stmt in statements_b]",
+     "            stmt.map_expressions(subst_map, include_lhs=False) for stmt in statements_b]",
+     "P/disambiguate/applied-everywhere")
+fire("c20-disamb-ignores-filter", ["C20"], TRF,
+     "        if should_disambiguate_name(clash):\n            unclash = vng(clash)\n"
+     "            subst_b[clash] = var(unclash)",
+     "        unclash = vng(clash)\n        subst_b[clash] = var(unclash)",
+     "P/disambiguate/filter")
+fire("c20-used-identifiers-reads-only", ["C20"], ANF,
+     "        result |= insn.get_written_variables()\n",
+     "",
+     "P/get_all_used_identifiers")
+fire("c20-daf-fuses-undisambiguated", ["C20"], TRF,
+     "    statements_b, subst_b = disambiguate_identifiers(",
+     "    _statements_b, subst_b = disambiguate_identifiers(",
+     "P/disambiguate_and_fuse/wiring")
+silent("c20-silent-rename-fuse-locals", ["C20"], TRF,
+       "        old_id = stmtb.id\n        new_id = stmt_id_gen(old_id)\n"
+       "        old_b_id_to_new_b_id[old_id] = new_id\n",
+       "        fresh = stmt_id_gen(stmtb.id)\n"
+       "        old_b_id_to_new_b_id[stmtb.id] = fresh\n        new_id = fresh\n")
+silent("c20-silent-reads-order", ["C20"], STF,
+       "result = get_vars(self.rhs) | get_vars(self.lhs)",
+       "result = get_vars(self.lhs) | get_vars(self.rhs)")
